@@ -964,6 +964,7 @@ where
         let total = ds.len();
         if std::env::var_os("VERIF_C08_COUNT_ONLY").is_some() {
             eprintln!("[c08] {:<12} {:<34} complexes {:>8}", T::NAME, label, total); // development aid
+            run.cap("VERIF_C08_COUNT_ONLY set: families were only counted");
             continue;
         }
         // batches keep the seen-set of one BFS small
@@ -1058,6 +1059,108 @@ fn sequential_part(run: &Run) -> Vec<Value> {
     report
 }
 
+/// C08 schedule part: "... and for every thread schedule".  `ChainReducer::reduce` calls the
+/// parallel pivot search, the Schur complement and the triangular solves; here the whole call runs
+/// under the controlled scheduler (W = 2, preemption bound 1; thorough 2) for every complex with one
+/// or two differentials of rank <= 3 over {0,1,2} (Z) / F3, and the full oracle of the sequential
+/// part (chain maps, F·B = I, same homology, d'd' = 0) is applied to the result of every schedule.
+fn schedule_part(run: &Run) -> Value {
+    use checks::sched::{self, Abort, Config};
+    sched::install_hook();
+    let th = run.thorough();
+    let tot = std::sync::Mutex::new((0u64, 0u64, 0u64, 0u64, 0u64)); // executions, points, par calls, complexes, with >1 outcome
+    fn part<T: Sc>(run: &Run, tot: &std::sync::Mutex<(u64, u64, u64, u64, u64)>, al: &[T::Ref], l: usize, maxrank: usize, bound: u32, thin_3x3: bool)
+    where
+        for<'x> &'x T: RingOps<T>,
+    {
+        let cxs: Vec<Cx<T>> = enumerate(al, l, maxrank)
+            .into_iter()
+            .filter(|d| d.iter().any(|m| m.m >= 2 && m.n >= 2 && !m.is_zero()))
+            // quick tier: 3x3 differentials only over the first two letters of the alphabet
+            .filter(|d| !thin_3x3 || d.iter().all(|m| !(m.m == 3 && m.n == 3) || m.e.iter().all(|x| *x == al[0] || *x == al[1])))
+            .map(|d| Cx::<T>::new(d, None))
+            .collect();
+        run.par_for(cxs.len(), |ci| {
+            if run.over_budget() {
+                run.cap("C08 schedules: wall budget reached");
+                return;
+            }
+            let cx = &cxs[ci];
+            let ll = cx.len();
+            let cfg = Config { workers: 2, choose_items: false, max_decisions: 100_000, min_items: 2 };
+            let body = || -> Result<Obs<T::Ref>, String> {
+                let c = cx.build(false);
+                let r = ChainReducer::reduce(&c, true);
+                let mut o = Obs { d: vec![], f: Some(vec![]), b: Some(vec![]), vecs: None };
+                for k in 0..ll {
+                    let g = k as isize;
+                    o.d.push(from_sp(r.matrix(g).ok_or(format!("matrix({g}) missing"))?));
+                    let t = r.trans(g).ok_or(format!("trans({g}) missing"))?;
+                    o.f.as_mut().unwrap().push(from_sp(&t.forward_mat()));
+                    o.b.as_mut().unwrap().push(from_sp(&t.backward_mat()));
+                }
+                Ok(o)
+            };
+            let mut outcomes: Vec<u64> = vec![];
+            let st = sched::explore(&cfg, Some(bound), 20_000, body, |r, tr| {
+                if let Some(Abort::Diverged(m)) = &tr.abort {
+                    eprintln!("MACHINERY ERROR: schedule replay diverged on {}: {m}", cx.id);
+                    std::process::exit(3);
+                }
+                let how = format!("reduce under schedule {:?} (W=2)", tr.choices());
+                match (&tr.abort, r) {
+                    (Some(ab), _) => {
+                        fail(run, cx, &how, format!("aborted: {ab:?}"));
+                        false
+                    }
+                    (None, Err(_)) => {
+                        fail(run, cx, &how, "panicked outside a parallel call".into());
+                        false
+                    }
+                    (None, Ok(Err(e))) => {
+                        fail(run, cx, &how, e);
+                        false
+                    }
+                    (None, Ok(Ok(o))) => match check_state(cx, &o) {
+                        Ok(()) => {
+                            let h = obs_hash(&o);
+                            if !outcomes.contains(&h) {
+                                outcomes.push(h);
+                            }
+                            true
+                        }
+                        Err(e) => {
+                            fail(run, cx, &how, e);
+                            false
+                        }
+                    },
+                }
+            });
+            if !st.complete && run.nviolations() == 0 {
+                run.cap("C08 schedules: execution cap (20000) per complex hit");
+            }
+            let mut g = tot.lock().unwrap();
+            g.0 += st.executions;
+            g.1 += st.points;
+            g.2 += st.par_calls;
+            g.3 += 1;
+            if outcomes.len() > 1 {
+                g.4 += 1;
+            }
+        });
+    }
+    let zal: Vec<Z> = [0, 1, 2].map(z).to_vec();
+    let bound = if th { 2 } else { 1 };
+    part::<i64>(run, &tot, &zal, 2, 3, bound, !th);
+    if th {
+        part::<i64>(run, &tot, &[z(0), z(1), z(-1), z(2)], 3, 2, bound, false);
+        part::<FF<3>>(run, &tot, &Fp::<3>::all(), 2, 3, bound, false);
+    }
+    let g = tot.into_inner().unwrap();
+    json!({"complexes": g.3, "executions": g.0, "lock_points_passed": g.1, "scheduled_parallel_calls": g.2,
+           "complexes_with_more_than_one_distinct_result": g.4, "workers": 2, "preemption_bound": bound})
+}
+
 extern "C" {
     fn mallopt(param: i32, value: i32) -> i32;
 }
@@ -1073,8 +1176,7 @@ fn main() {
     let run = Run::new("C08", "model_checking");
     let report = sequential_part(&run);
 
-    // ---- schedule part (thread-schedule exploration of reduce_at_spec under the shim-rayon
-    // ---- explorer) is added here:   let sched = schedule_part(&run);
+    let sched = schedule_part(&run);
 
     let ld = |a: &AtomicU64| a.load(Ordering::Relaxed);
     let coverage = json!({
@@ -1092,6 +1194,7 @@ fn main() {
         "one_shot_entry_point_runs": ld(&CT.one_shots),
         "max_depth_reached": ld(&CT.max_depth),
         "families": report,
+        "schedule_part": sched,
         "exhaustive": true,
     });
     run.finish(
@@ -1101,7 +1204,7 @@ fn main() {
             "Z[H]: homology is compared after base change to Q[H] and after H -> 0,1,2,-1 into Z, not as a Z[H]-module; all chain-map identities are exact polynomial identities",
             "a reducer state is re-instantiated with new/set_matrix/trans_mut/add_vec (ChainReducer is not Clone); all five fields of the struct are restored; histories are also replayed from ChainReducer::from",
             "pivot choice inside the library depends on per-instance hash seeds; a replay may therefore reach a different (equally judged) state than the recorded one — counted, not required to coincide",
-            "sequential part only: rayon is the sequential stand-in; thread schedules are the subject of schedule_part",
+            "sequential part: rayon is the sequential stand-in; schedule part: the whole ChainReducer::reduce runs under the shim-rayon explorer (W=2, preemption bounded) and every schedule's result is judged by the same oracle",
             "the repository complexes are explored to a fixed depth (2 quick / 3 thorough), which is a stated bound, not a cap",
         ],
     );
